@@ -203,6 +203,17 @@ func (v *Verifier) specFunc(se *SpecEnv, name string, c *ast.CallExpr) (Value, b
 			}
 		}
 		return &AggV{out}, true
+	case "qnorm": // norm of a coordinate vector in R[X]/(X^k - nr) down to R, k = 2 or 3
+		nr := se.rvalue(se.eval(c.Args[0])).(*Term)
+		a := specVec(se, c.Args[1])
+		switch len(a) {
+		case 2:
+			return F.Sub(F.Mul(a[0], a[0]), F.Mul(nr, a[1], a[1])), true
+		case 3:
+			// a0^3 + nr a1^3 + nr^2 a2^3 - 3 nr a0 a1 a2
+			return F.Add(F.Mul(a[0], a[0], a[0]), F.Mul(nr, a[1], a[1], a[1]), F.Mul(nr, nr, a[2], a[2], a[2]), F.Mul(F.I64(-3), nr, a[0], a[1], a[2])), true
+		}
+		unsup("qnorm: degree %d not supported", len(a))
 	case "vconj2": // (a0, a1) -> (a0, -a1)
 		a := specVec(se, c.Args[0])
 		if len(a) != 2 {
